@@ -379,20 +379,20 @@ func main() {
 		return
 	}
 	var cases []Case
-	step := r.Pick(4, 1)
+	step := r.Pick(1, 1)
 	for i := 0; i < len(cat); i += step {
 		cases = append(cases, Case{Kind: "catpairs", Stream: fmt.Sprintf("c05/catpairs/%d", i)})
 	}
-	for i := 0; i < r.Pick(10, 400); i++ {
+	for i := 0; i < r.Pick(150, 6000); i++ {
 		cases = append(cases, Case{Kind: "randpairs", Stream: fmt.Sprintf("c05/randpairs/%d", i)})
 	}
-	for i := 0; i < r.Pick(2, 40); i++ {
+	for i := 0; i < r.Pick(12, 300); i++ {
 		cases = append(cases, Case{Kind: "decode", Stream: fmt.Sprintf("c05/decode/%d", i)})
 	}
-	for i := 0; i < r.Pick(1, 20); i++ {
+	for i := 0; i < r.Pick(6, 200); i++ {
 		cases = append(cases, Case{Kind: "wide", Stream: fmt.Sprintf("c05/wide/%d", i)})
 	}
-	for i := 0; i < r.Pick(4, 80); i++ {
+	for i := 0; i < r.Pick(20, 600); i++ {
 		cases = append(cases, Case{Kind: "lists", Stream: fmt.Sprintf("c05/lists/%d", i)})
 	}
 	r.Observe("catalogue_size", len(cat))
